@@ -114,8 +114,8 @@ SPEC = dict(
     props_module="Refinery.Props.C08",
     gen_module="Refinery.Gen.Rules",
     custom=custom,
-    quick=dict(cases=640, len=60, shards=4),
-    thorough=dict(cases=48000, len=70, shards=16),
+    quick=dict(cases=480, len=60, shards=4),
+    thorough=dict(cases=32000, len=70, shards=16),
     nontrivial=nontrivial,
     rule="a case = a rule list (1-6 rules, 0-4 conditions each; type-directed over all 15 operators, 5 datatypes, value kinds "
          "string/int/float/bool/nil/list/map, Field/Fields/both/neither, root. prefix, ?.NUM_DESCENDANTS, trace/span/invalid scope, drop, "
